@@ -2,7 +2,7 @@
 (***************************************************************************)
 (* C18 — parameter defaults become runtime prop defaults.  Prop map        *)
 (* { a?: string, b?: number, cb?: () => void, 'q-k'?: string, z?: boolean, *)
-(*   u?: (() => void) | string }                                           *)
+(*   u?: (() => void) | string, 'w'?: number, ['v']?: string }             *)
 (* x default objects mixing literal / expression / shorthand / getter /    *)
 (* method / async method / function value / quoted and computed-literal    *)
 (* keys / extra keys, and the dynamic forms (identifier, spread, computed).*)
@@ -21,10 +21,17 @@ ForCb == {<<>>, <<Entry("cb", "ident", "fn", Lit(Num(1)))>>, <<Entry("cb", "iden
 ForQ  == {<<>>, <<Entry("q-k", "str", "lit", Lit(S(<<113>>)))>>}
 (* u?: (() => void) | string — a union that includes Function: Vue still calls a function default as a factory *)
 ForU  == {<<>>, <<Entry("u", "ident", "expr", Ident("fu", FALSE, FnR("du", Num(5))))>>, <<Entry("u", "ident", "fn", Lit(Num(6)))>>}
+(* 'w'?: number and ['v']?: string - keys *quoted / computed-literal in the type*, written in every spelling in the default *)
+ForW  == {<<>>, <<Entry("w", "ident", "lit", Lit(Num(3)))>>, <<Entry("w", "ident", "shorthand", Ident("w", TRUE, Num(4)))>>,
+          <<Entry("w", "ident", "getter", Call("gw", Num(5)))>>, <<Entry("w", "str", "lit", Lit(Num(6)))>>,
+          <<Entry("w", "computed_lit", "expr", Call("gw2", Num(7)))>>}
+ForV  == {<<>>, <<Entry("v", "ident", "expr", Ident("uv", FALSE, S(<<118>>)))>>, <<Entry("v", "str", "lit", Lit(S(<<86>>)))>>,
+          <<Entry("v", "ident", "getter", Call("gv", S(<<103, 118>>)))>>}
 Extra == {<<>>, <<Entry("nope", "ident", "lit", Lit(Num(0)))>>}
 
 Statics == {[form |-> "static", entries |-> a \o b \o cb \o q \o x] : a \in ForA, b \in ForB, cb \in ForCb, q \in ForQ, x \in Extra}
            \cup {[form |-> "static", entries |-> a \o cb \o u] : a \in ForA, cb \in ForCb, u \in ForU \ {<<>>}}
+           \cup {[form |-> "static", entries |-> a \o w \o v] : a \in ForA, w \in ForW, v \in ForV}
 
 DynObj == Obj(<< <<"a", S(<<100>>)>>, <<"cb", FnR("dcb", Num(4))>>, <<"b", FnR("fb", Num(9))>>, <<"other", Num(1)>> >>)
 Dynamics == {[form |-> "ident", entries |-> <<>>, dyn |-> DynObj],
